@@ -32,6 +32,13 @@ SPEC = {
              "formula is asserted (classes json/source_<s> and json/source_<s>/read_again = the bounds need more than one pass over the data: passes >= 2, limit > entries, or "
              "no bound at all + cancel; split into read_again_passes_only / _to_limit / _unbounded). Pipes (not seekable: documented 'read only once') are not generated. "
              "(Floors of classes that belong to the other kinds were rescaled by 9/11 when the json kind got its triple weight.) "
+             "File system: in two cells of five of the HTTP kinds (all formats and layouts, JSON array included, with and without preload) and of grpc/json the ammo file is a real file in a "
+             "temporary directory of its own (removed with the case) and the provider is built over afero.NewOsFs() - the file system the pandora binary hands to the providers - by what the "
+             "registered plugin factory does: the options are decoded into the provider's config struct by config.DecodeAndValidate and the provider's constructor is called with it (the "
+             "registry of the test process stays bound to the mem fs, Import can be called only once). The provider then holds an *os.File, on which reading, seeking and closing after a close are "
+             "errors, where afero's mem file forgives all of that. All other dimensions are drawn independently of it (classes os_fs, <kind>/os_fs_bounded = ends at its bounds, "
+             "_bounded_through_engine, <kind>/os_fs_cancelled = unbounded and ended by the cancel); the assertions are the same, and for the cancelled cells on the OS file system the result "
+             "of Run must be nil or have the context's error as its cause - the test core/engine applies (errutil.IsCtxError) -, not a context error bundled with another failure. "
              "Non-trivial = a bound is hit (X finite) and the cell is not plain streaming uri, or chosencases matches nothing; "
              "distinct = hash of the case. Every kind x bound-combination cell must occur (required classes)."),
     "required_classes": ['TestBounds/uri/limit_only', 'TestBounds/uri/passes_only', 'TestBounds/uri/both', 'TestBounds/uri/none', 'TestBounds/uripost/limit_only', 'TestBounds/uripost/passes_only', 'TestBounds/uripost/both', 'TestBounds/uripost/none', 'TestBounds/raw/limit_only', 'TestBounds/raw/passes_only', 'TestBounds/raw/both', 'TestBounds/raw/none', 'TestBounds/jsonline/limit_only', 'TestBounds/jsonline/passes_only', 'TestBounds/jsonline/both', 'TestBounds/jsonline/none', 'TestBounds/jsonarray/limit_only', 'TestBounds/jsonarray/passes_only', 'TestBounds/jsonarray/both', 'TestBounds/jsonarray/none', 'TestBounds/grpc/json/limit_only', 'TestBounds/grpc/json/passes_only', 'TestBounds/grpc/json/both', 'TestBounds/grpc/json/none', 'TestBounds/http/scenario/limit_only', 'TestBounds/http/scenario/passes_only', 'TestBounds/http/scenario/both', 'TestBounds/http/scenario/none', 'TestBounds/grpc/scenario/limit_only', 'TestBounds/grpc/scenario/passes_only', 'TestBounds/grpc/scenario/both', 'TestBounds/grpc/scenario/none', 'TestBounds/json/limit_only', 'TestBounds/json/passes_only', 'TestBounds/json/both', 'TestBounds/json/none',
@@ -41,7 +48,11 @@ SPEC = {
                          'TestBounds/jsonline/entries_over_64k_read_again', 'TestBounds/jsonarray/entries_over_64k_read_again',
                          'TestBounds/grpc/json/entries_over_64k_read_again',
                          'TestBounds/json/source_file/read_again', 'TestBounds/json/source_inline/read_again', 'TestBounds/json/source_stdin/read_again', 'TestBounds/json/source_reader_strings/read_again', 'TestBounds/json/source_reader_file/read_again', 'TestBounds/json/source_string/read_again',
-                         'TestBounds/json/source_inline/read_again_passes_only', 'TestBounds/json/source_inline/read_again_to_limit', 'TestBounds/json/source_inline/read_again_unbounded'],
+                         'TestBounds/json/source_inline/read_again_passes_only', 'TestBounds/json/source_inline/read_again_to_limit', 'TestBounds/json/source_inline/read_again_unbounded',
+                         'TestBounds/uri/os_fs_bounded', 'TestBounds/uripost/os_fs_bounded', 'TestBounds/raw/os_fs_bounded', 'TestBounds/jsonline/os_fs_bounded',
+                         'TestBounds/jsonarray/os_fs_bounded', 'TestBounds/grpc/json/os_fs_bounded', 'TestBounds/jsonarray/os_fs_bounded_through_engine',
+                         'TestBounds/uri/os_fs_cancelled', 'TestBounds/uripost/os_fs_cancelled', 'TestBounds/raw/os_fs_cancelled', 'TestBounds/jsonline/os_fs_cancelled',
+                         'TestBounds/jsonarray/os_fs_cancelled', 'TestBounds/grpc/json/os_fs_cancelled'],
     "floors": {"TestBounds/preload": 0.15, "TestBounds/single_entry": 0.1, "TestBounds/through_engine": 0.18,
                "TestBounds/live_consumers": 0.065, "TestBounds/late_consumers": 0.04,
                "TestBounds/provider_failed_with_consumers_acquiring": 0.012,
@@ -53,7 +64,12 @@ SPEC = {
                "TestBounds/grpc/json/entries_over_64k_read_again": 0.0085, "TestBounds/jsonline/entries_over_64k_read_again": 0.009,
                "TestBounds/jsonarray/entries_over_64k_read_again": 0.007,
                "TestBounds/json/source_file/read_again": 0.006, "TestBounds/json/source_inline/read_again": 0.006, "TestBounds/json/source_stdin/read_again": 0.006, "TestBounds/json/source_reader_strings/read_again": 0.006, "TestBounds/json/source_reader_file/read_again": 0.006, "TestBounds/json/source_string/read_again": 0.006,
-               "TestBounds/json/source_inline/read_again_passes_only": 0.002, "TestBounds/json/source_inline/read_again_to_limit": 0.003, "TestBounds/json/source_inline/read_again_unbounded": 0.003},
+               "TestBounds/json/source_inline/read_again_passes_only": 0.002, "TestBounds/json/source_inline/read_again_to_limit": 0.003, "TestBounds/json/source_inline/read_again_unbounded": 0.003,
+               # the ammo file is a real OS file read through afero.NewOsFs() (HTTP formats and grpc/json)
+               "TestBounds/os_fs": 0.14, "TestBounds/os_fs_bounded": 0.1, "TestBounds/os_fs_bounded_through_engine": 0.033, "TestBounds/os_fs_cancelled": 0.015,
+               "TestBounds/uri/os_fs_bounded": 0.02, "TestBounds/uripost/os_fs_bounded": 0.022, "TestBounds/raw/os_fs_bounded": 0.015,
+               "TestBounds/jsonline/os_fs_bounded": 0.014, "TestBounds/jsonarray/os_fs_bounded": 0.008, "TestBounds/grpc/json/os_fs_bounded": 0.009,
+               "TestBounds/jsonarray/os_fs_preload": 0.006, "TestBounds/jsonarray/os_fs_cancelled": 0.0007},
     "manifest": {
         "technique": "property-based testing (rapid) over the provider-kind x bound matrix with a counting oracle and a hang watchdog",
         "text": ("For every generated cell the provider must deliver exactly min(limit, passes*entries) ammo (non-zero bounds only), then "
@@ -62,7 +78,8 @@ SPEC = {
                  "when the cancel (or a decode failure) stops the provider and consumers that call Acquire only after Run has returned. "
                  "The matrix includes chosencases (a subset of the entries: the bound formula counts the chosen entries; no entry at all: the provider is "
                  "cancelled while it scans its file and must return promptly without having delivered anything), maxammosize, and entries of up to 160 KiB "
-                 "(above 64 KiB only with maxammosize raised) read for one or several passes."),
+                 "(above 64 KiB only with maxammosize raised) read for one or several passes, and - for the HTTP formats and grpc/json - the real OS file system next to the in-memory one: "
+                 "there too Run returns nil at the bounds (not the error of a file closed twice or read after close), the engine run succeeds, and a cancelled provider returns nil or the bare context error."),
         "note": ("Hang verdicts use a 5 s deadline (normal completion < 10 ms) and require the provider to still be stuck after cancel "
                  "or to return only because of it. Scenario files are minimal hand-written YAML (n scenarios of weight 1)."),
     },
